@@ -236,6 +236,50 @@ fn split_url(u: &str) -> (String, String, String) {
     (path.to_string(), query.to_string(), hash.to_string())
 }
 
+/// Serve `url` to a client whose Accept-Language names `resolved`: the redirects the matched view of the real
+/// `<I18nRoute>` asks the server integration for (None: leptos_router itself does not route this URL)
+fn serve(base: &'static str, url: &str, resolved: HL) -> Option<Vec<String>> {
+    use leptos::prelude::*;
+    use leptos_router::components::{provide_server_redirect, Router};
+    use leptos_router::location::RequestUrl;
+    use leptos_router::{ChooseView, MatchInterface, MatchNestedRoutes};
+    crate::rt::init_executor();
+    let owner = Owner::new_root(Some(std::sync::Arc::new(hydration_context::SsrSharedContext::new())));
+    let redirects = std::sync::Arc::new(Mutex::new(Vec::<String>::new()));
+    let recorded = redirects.clone();
+    let url_s = url.to_string();
+    let matched = owner.with(move || {
+        provide_context(RequestUrl::new(&url_s));
+        provide_server_redirect(move |path| recorded.lock().unwrap().push(path.to_owned()));
+        let header = move || Some(resolved.as_str().to_owned());
+        let options = leptos_i18n::context::I18nContextOptions::<HL>::default().enable_cookie(false).ssr_lang_header_getter(leptos_i18n::context::UseLocalesOptions::default().ssr_lang_header_getter(header));
+        #[allow(deprecated)]
+        let i18n = leptos_i18n::context::provide_i18n_context_with_options(options);
+        if i18n.get_locale_untracked() != resolved {
+            // (a configured name that is not a language tag - `e`, `english` - cannot be asked for in a header)
+            return false;
+        }
+        let _ = view! { <Router>{()}</Router> };
+        let (routes, _) = crate::routes::real_routes(base);
+        let path = url_s.split('?').next().unwrap_or("").to_string();
+        let (m, _rest) = routes.match_nested(&path);
+        let Some((_id, m)) = m else { return false };
+        let (view, _child) = m.into_view_and_child();
+        let _ = futures::executor::block_on(view.choose());
+        true
+    });
+    // (the effects the view registered are browser glue - web_sys calls -: they are disposed with the owner before the
+    // queue is drained, never run)
+    owner.cleanup();
+    drop(owner);
+    crate::rt::poll();
+    if !matched {
+        return None;
+    }
+    let r = redirects.lock().unwrap().clone();
+    Some(r)
+}
+
 pub fn run(tier: Tier) -> i32 {
     let rep = Reporter::new("C14", "RT", tier);
     let sets: Vec<Vec<&str>> = vec![vec!["en", "fr"], vec!["en", "fr", "fr-CA"], vec!["en", "fr-CA", "fr"], vec!["en", "e", "eng"], vec!["eng", "e", "en"], vec!["fr", "en", "english"], vec!["en", "de", "fr", "fr-CA"]];
@@ -510,13 +554,54 @@ pub fn run(tier: Tier) -> i32 {
         *c_matched.lock().unwrap() += f.matched;
         c_outcomes.lock().unwrap().extend(f.outcomes);
     });
+    // ---- D: the server side of a request for an unprefixed URL whose locale (Accept-Language) is not the default:
+    // the redirect the real <I18nRoute> view asks for is the switch default -> that locale (prefix + localized segments)
+    let d_served = Mutex::new(0u64);
+    par_for(configs.len(), |_, ci| {
+        let cfg = configs[ci];
+        CONFIG.set(cfg);
+        let names: Vec<&str> = cfg.iter().map(|l| l.as_str()).collect();
+        let mut served = 0u64;
+        for base in ["/", "/app"] {
+            for page in pages.iter() {
+                let Page::Inst { .. } = page else { continue };
+                let segs = page_segments(page, HL::default(), true);
+                // (a page whose own first segment is a locale name is read as a prefix by the statement)
+                if segs.first().is_some_and(|s| names.contains(&s.as_str())) {
+                    continue;
+                }
+                for query in ["", "a=1&b=fr"] {
+                    let url = expected_url(base, page, HL::default(), true, query, "");
+                    for &resolved in cfg.iter() {
+                        let want: Vec<String> = if resolved == HL::default() { vec![] } else { vec![expected_url(base, page, resolved, true, query, "")] };
+                        let got = match std::panic::catch_unwind(|| serve(base, &url, resolved)) {
+                            Ok(g) => g,
+                            Err(e) => {
+                                rep.violation(format!("C14/redirect: PANIC {} :: locales {names:?} base {base:?} url {url:?} resolved {}", vmodel::par::take_panic_message(e), resolved.as_str()), json!({}));
+                                continue;
+                            }
+                        };
+                        served += 1;
+                        let Some(got) = got else { continue };
+                        let got: Vec<String> = got.iter().map(|u| norm(u)).collect();
+                        let want: Vec<String> = want.iter().map(|u| norm(u)).collect();
+                        if got != want {
+                            rep.violation(format!("C14/redirect: locales {names:?} base {base:?}: request for {url:?} resolved to {} is redirected to {got:?}, expected {want:?}", resolved.as_str()), json!({"url": url}));
+                        }
+                    }
+                }
+            }
+        }
+        rep.eval(served);
+        *d_served.lock().unwrap() += served;
+    });
     let n_states = states.lock().unwrap().len() as u64;
     rep.nontriv(n_states);
     rep.trans(*n_trans.lock().unwrap());
     rep.sample(json!({"locales": ["en", "fr"], "base": "/", "url": "/english/course", "switch": "en -> fr", "expected": "/fr/english/course"}));
     rep.sample(json!({"locales": ["en", "fr", "fr-CA"], "base": "app", "url": "/app/fr-CA/usagers/42/apropos-ca?a=1&b=fr#fr", "switch": "fr-CA -> fr", "expected": "/app/fr/utilisateurs/42/a-propos?a=1&b=fr#fr"}));
     let mut cov = serde_json::Map::new();
-    cov.insert("rule".into(), json!(format!("locale sets {sets:?} (default first; names that are prefixes of each other and of path words) x base paths {BASES:?}; (A) get_locale_from_path on every path of <= 2 (thorough 3) segments over {WORDS:?}, under the base, under near misses of it (segments glued, one segment extended, last segment missing; also for the bases /a/b/c and my/app/) and elsewhere, with and without trailing slash, against a whole-segment oracle; (B) explicit-state exploration: state = (URL, locale); from the URL of every page (12 route shapes with static / param / optional (also two in a row, and after a param) / splat / localized segments and the home route instantiated with 4 parameter sets, optional present or not, plus 8 paths no route knows (some are proper prefixes of routes)) in every locale, with and without query and fragment, with and without a route table, (for the default locale also from the URL that carries it as an explicit prefix) every sequence of <= {depth} locale switches, each step calling the real get_new_path with the real previous locale; invariants per transition: result == base + new prefix (none for the default) + localized segments + untouched other segments, query and fragment (so A->B->A returns the original URL), the locale read back from the new URL is the one switched to, and the real route objects match the URL before and after as the same route with the same parameters under the new prefix; with a route table the segment tables are the ones the real <I18nRoute> stored (hook stored_segments); (C) the real <I18nRoute> built natively with i18n_path! segments (home, static, localized, param, optional, splat): generate_routes() == for every locale the plain leptos_router table in that locale's words under the locale prefix, plus the default's table unprefixed; match_nested() on every path of <= 3 (4 after a locale name) segments over locale names, localized words of every locale, glued forms (locale name + more characters in the same segment), truncated and upper-cased names, with and without trailing slash: the answer must be the plain leptos_router answer for the locale whose name equals the first segment exactly, or the default locale's answer for the whole path, or no match when neither exists")));
+    cov.insert("rule".into(), json!(format!("locale sets {sets:?} (default first; names that are prefixes of each other and of path words) x base paths {BASES:?}; (A) get_locale_from_path on every path of <= 2 (thorough 3) segments over {WORDS:?}, under the base, under near misses of it (segments glued, one segment extended, last segment missing; also for the bases /a/b/c and my/app/) and elsewhere, with and without trailing slash, against a whole-segment oracle; (B) explicit-state exploration: state = (URL, locale); from the URL of every page (12 route shapes with static / param / optional (also two in a row, and after a param) / splat / localized segments and the home route instantiated with 4 parameter sets, optional present or not, plus 8 paths no route knows (some are proper prefixes of routes)) in every locale, with and without query and fragment, with and without a route table, (for the default locale also from the URL that carries it as an explicit prefix) every sequence of <= {depth} locale switches, each step calling the real get_new_path with the real previous locale; invariants per transition: result == base + new prefix (none for the default) + localized segments + untouched other segments, query and fragment (so A->B->A returns the original URL), the locale read back from the new URL is the one switched to, and the real route objects match the URL before and after as the same route with the same parameters under the new prefix; with a route table the segment tables are the ones the real <I18nRoute> stored (hook stored_segments); (C) the real <I18nRoute> built natively with i18n_path! segments (home, static, localized, param, optional, splat): generate_routes() == for every locale the plain leptos_router table in that locale's words under the locale prefix, plus the default's table unprefixed; match_nested() on every path of <= 3 (4 after a locale name) segments over locale names, localized words of every locale, glued forms (locale name + more characters in the same segment), truncated and upper-cased names, with and without trailing slash: the answer must be the plain leptos_router answer for the locale whose name equals the first segment exactly, or the default locale's answer for the whole path, or no match when neither exists; (D) the server side: for every page of the default locale requested without prefix (bases / and /app, with and without query) and every configured locale as the one Accept-Language resolves to, the matched view of the real <I18nRoute> is chosen under a RequestUrl + recording server-redirect: no redirect for the default locale, otherwise exactly one, to base + locale prefix + that locale's spelling of the page + the query")));
     cov.insert("exhaustive".into(), json!(true));
     cov.insert("states".into(), json!(n_states.max(1)));
     cov.insert("depth".into(), json!(depth));
